@@ -632,6 +632,13 @@ impl World {
 		if std::env::var("GV_DEBUG2").is_ok() {
 			eprintln!("seal {:.1}ms nonce {}", t0.elapsed().as_secs_f64() * 1e3, b.header.pow.nonce);
 		}
+		// two raw blocks may resolve to the very same block (same parent, content,
+		// timestamp): make the later one distinct by nudging its timestamp
+		if self.node_of(&b.hash()).is_some() && raw.dt < 590 {
+			let mut r2 = raw.clone();
+			r2.dt += 1;
+			return self.build(chain, &r2, head);
+		}
 		let n_spends = b.inputs().len();
 		// boundary tags (distance of each time-locked element to its threshold)
 		let mut tags = vec![];
